@@ -21,6 +21,12 @@ def main():
     import gymnasium  # noqa: F401
     import jax  # noqa: F401
     import optax  # noqa: F401
+
+    # The adapters' policy probes take component digests inside an ordered host callback of the jitted sampler.  A run WITH a
+    # logger materialises every update before the next action is sampled (record_stat converts the losses to floats); without
+    # a logger the parameter updates may still be in flight when the sampler's callback asks for them, and the CPU client
+    # dead-locks (observed deterministically for sac, scenario B).  Synchronous dispatch changes no value, only the timing.
+    jax.config.update("jax_cpu_enable_async_dispatch", False)
     import rl_blox.algorithm as _alg
 
     for m in pkgutil.iter_modules(_alg.__path__):
